@@ -230,6 +230,14 @@ func c13(ctx *Ctx) (*Outcome, error) {
 			}
 			data := renderSpelling(respell(base, sp, true), sp)
 			args := append([]string{"-p", "spell", "-o", "out.go", "--resolve-extension", ".json", "--resolve-extension", ".yaml"}, j.opts...)
+			if sp.format == "yamlblock" && sp.typeList && j.lib == nil {
+				// YAML under an extension of the user's choosing
+				ext = ".yschema"
+				args = append(args, "--yaml-extension", ".yschema", "--resolve-extension", ".yschema")
+			} else if sp.format == "yamlflow" && sp.boolAny && j.lib == nil {
+				ext = ".yml"
+				args = append(args, "--resolve-extension", ".yml")
+			}
 			args = append(args, "root"+ext)
 			files := []batch.File{{Path: "root" + ext, Data: data}}
 			if j.lib != nil {
